@@ -30,53 +30,61 @@ Proof.
 Qed.
 
 Lemma list_line_ok kw attrs name :
-  forallb plain_byte kw = true -> forallb flag_byte attrs = true -> classify_name name = None ->
-  wf_stream (send (list_line kw attrs name)) = true /\ unquote (DQ :: name ++ [DQ]) = Some name.
+  forallb plain_byte kw = true -> forallb flag_byte attrs = true -> clean name = true ->
+  wf_stream (send (list_line kw attrs name)) = true
+  /\ tokb (quote_string name) = true /\ unquote (quote_string name) = Some name.
 Proof.
-  unfold classify_name. intros Hk Ha Hn. destruct (name_plain name) eqn:E; [|discriminate].
-  split; [now apply list_line_wf|now apply list_name_roundtrip].
+  intros Hk Ha Hn. split; [now apply list_line_wf|].
+  split; [apply tokb_tokp, tokp_quote_string, Hn|apply unquote_quote_string].
 Qed.
 
 Lemma status_line_ok name items :
-  classify_name name = None -> Forall (fun kv => forallb plain_byte (fst kv) = true) items ->
+  clean name = true -> Forall (fun kv => forallb plain_byte (fst kv) = true) items ->
   wf_stream (send (status_line name items)) = true.
-Proof.
-  unfold classify_name. intros Hn Hi. destruct (name_plain name) eqn:E; [|discriminate].
-  now apply status_line_wf.
-Qed.
+Proof. intros Hn Hi. now apply status_line_wf. Qed.
 
 (** ---- witnesses ---- *)
 Definition w_two_literals : list out :=
   [Lit (S_ "BODY[TEXT]") (S_ "hello"); Lit (S_ "BODY[HEADER]") (S_ "a: b")].
-Definition w_fields_overwrite : list out :=
-  [Lit (S_ "BODY[1]") (S_ "part one"); LitOver (S_ "BODY[HEADER.FIELDS (SUBJECT)]") (S_ "Subject: x")].
+Definition w_fields_after_section : list out :=
+  [Lit (S_ "BODY[1]") (S_ "part one"); Lit (S_ "BODY[HEADER.FIELDS (SUBJECT)]") (S_ "Subject: x")].
 Definition w_literal_then_inline : list out :=
   [Lit (S_ "BODY[1]") (S_ "part one"); Inline (S_ "BODY[2]") (S_ "NIL")].
 
-Lemma refuted_multi_literal :
-  exists plan, classify_plan plan = Some multi_literal /\ forallb out_okb plan = true
-               /\ fetch_pairs (send (fetch_line 1 plan)) = None.
-Proof. exists w_two_literals. vm_compute. auto. Qed.
+(** the lines raven sent for these contributions BEFORE the F14 fix (item names
+    first, all literals after them; HEADER.FIELDS overwriting): the strict client
+    cannot pair them. Plain byte strings, no reference to the current model. *)
+Definition old_two_literals : str :=
+  S_ "* 1 FETCH (BODY[TEXT] BODY[HEADER] {5}" ++ crlf ++ S_ "hello {4}" ++ crlf ++ S_ "a: b)".
+Definition old_fields_overwrite : str :=
+  S_ "* 1 FETCH (BODY[1] BODY[HEADER.FIELDS (SUBJECT)] {10}" ++ crlf ++ S_ "Subject: x)".
+Definition old_literal_then_inline : str :=
+  S_ "* 1 FETCH (BODY[1] BODY[2] NIL {8}" ++ crlf ++ S_ "part one)".
 
-Lemma refuted_fields_overwrite :
-  classify_plan w_fields_overwrite = Some multi_literal /\ forallb out_okb w_fields_overwrite = true
-  /\ fetch_pairs (send (fetch_line 1 w_fields_overwrite)) = None.
-Proof. vm_compute. auto. Qed.
-
-Lemma refuted_literal_then_inline :
-  classify_plan w_literal_then_inline = Some multi_literal /\ forallb out_okb w_literal_then_inline = true
-  /\ fetch_pairs (send (fetch_line 1 w_literal_then_inline)) <> Some (dec 1, map pair_of w_literal_then_inline).
+Lemma old_assembly_unreadable :
+  fetch_pairs (send old_two_literals) = None /\ fetch_pairs (send old_fields_overwrite) = None
+  /\ option_map snd (fetch_pairs (send old_literal_then_inline))
+     <> Some (map pair_of w_literal_then_inline).
 Proof. vm_compute. repeat split; discriminate. Qed.
 
-Lemma refuted_name_unescaped :
-  exists name, classify_name name = Some name_unescaped
-               /\ wf_stream (send (list_line (S_ "LIST") (S_ "\Unmarked") name)) = false
-               /\ wf_stream (send (status_line name [(S_ "MESSAGES", 0)])) = false.
-Proof. exists (S_ "a""b"). vm_compute. auto. Qed.
+(** ... and the same contributions through the repaired assembly *)
+Lemma new_assembly_examples :
+  fetch_pairs (send (fetch_line 1 w_two_literals)) = Some (dec 1, map pair_of w_two_literals)
+  /\ fetch_pairs (send (fetch_line 1 w_fields_after_section)) = Some (dec 1, map pair_of w_fields_after_section)
+  /\ fetch_pairs (send (fetch_line 1 w_literal_then_inline)) = Some (dec 1, map pair_of w_literal_then_inline).
+Proof. vm_compute. auto. Qed.
 
-Lemma refuted_name_backslash :
-  classify_name (S_ "c\d") = Some name_unescaped
-  /\ wf_stream (send (list_line (S_ "LIST") (S_ "\Unmarked") (S_ "c\d"))) = false.
+(** the LIST / STATUS lines raven sent for the names a-quote-b and c-backslash-d BEFORE the F15 fix *)
+Lemma old_name_lines_malformed :
+  wf_stream (send (S_ "* LIST (\Unmarked) ""/"" ""a""b""")) = false
+  /\ wf_stream (send (S_ "* LIST (\Unmarked) ""/"" ""c\d""")) = false
+  /\ wf_stream (send (S_ "* STATUS ""a""b"" (MESSAGES 0)")) = false.
+Proof. vm_compute. auto. Qed.
+
+Lemma new_name_lines_examples :
+  wf_stream (send (list_line (S_ "LIST") (S_ "\Unmarked") (S_ "a""b"))) = true
+  /\ wf_stream (send (list_line (S_ "LIST") (S_ "\Unmarked") (S_ "c\d"))) = true
+  /\ wf_stream (send (status_line (S_ "a""b") [(S_ "MESSAGES", 0)])) = true.
 Proof. vm_compute. auto. Qed.
 
 Lemma refuted_flag_atom :
@@ -109,6 +117,10 @@ Lemma refuted_item_suppressed_header :
   unanswered [I_Sec false S_Header None; I_Sec false (S_Fields [S_ "TO"]) None] item_suppressed.
 Proof. vm_compute. auto. Qed.
 
+Lemma refuted_item_suppressed_twice :
+  unanswered [I_Sec true S_Header None; I_Sec true S_Header (Some (3, 5))] item_suppressed.
+Proof. vm_compute. auto. Qed.
+
 Lemma refuted_rfc822_renamed : unanswered [I_Simple (S_ "RFC822")] rfc822_renamed.
 Proof. vm_compute. auto. Qed.
 
@@ -121,7 +133,7 @@ Lemma answered_example :
               I_Sec true (S_Fields [S_ "Subject"; S_ "to"]) None] in
   classify_req req = None
   /\ match fetch_plan (fetch_items (render_req req)) w_env with
-     | Some plan => answered req plan = true /\ classify_plan plan = None /\ forallb out_okb plan = true
+     | Some plan => answered req plan = true /\ forallb out_okb plan = true
      | None => False
      end.
 Proof. vm_compute. auto. Qed.
